@@ -92,9 +92,32 @@ def signature(env, t, depth=0):
     return repr(res)
 
 
+LOSSY = []      # notes left by convert(): places where the documentation allows the zero value *or* a runtime error
+
+
+def _same_case(env_a, cta, env_b, tb):
+    return signature(env_a, cta) == signature(env_b, tb)
+
+
 def convert(env_a, ta, env_b, tb, v):
     """Reference conversion of neutral value v of type ta (in env_a) to type tb (in env_b)."""
     ra, rb = env_a.resolve(ta), env_b.resolve(tb)
+    if isinstance(ra, Union) and not isinstance(ra, tuple) and not isinstance(rb, tuple) and not isinstance(rb, (Union, Opt)):
+        # [T, U] -> T: the value of the kept case; for a value of a removed case the documentation offers the zero value or a
+        # runtime error ("Default zero values", "Runtime errors: incompatible union case") - never anything else
+        if v is None:
+            return zero(env_b, tb)
+        cta = ra.cases[v[1]][1]
+        if _same_case(env_a, cta, env_b, tb):
+            return convert(env_a, cta, env_b, tb, v[2])
+        LOSSY.append("value of removed union case %s" % ra.cases[v[1]][0])
+        return zero(env_b, tb)
+    if isinstance(rb, Union) and not isinstance(rb, tuple) and not isinstance(ra, tuple) and not isinstance(ra, (Union, Opt)):
+        # T -> [T, U]
+        for j, (tg, ct) in enumerate(rb.cases):
+            if _same_case(env_b, ct, env_a, ta):
+                return ("u", j, convert(env_a, ta, env_b, ct, v))
+        raise Unconvertible("scalar is not a case of the union")
     if isinstance(ra, tuple) and isinstance(rb, tuple):
         if ra[0] == "record" and rb[0] == "record":
             fa = dict(env_a.record_fields(ra))
@@ -231,6 +254,24 @@ def make_chain(rng):
         for r in recs:
             if ra.chance(0.4):
                 r.fields.append(("evoid%d" % ra.randint(1, 99), ra.choice([M.Named("EvoId"), M.Vec(M.Named("EvoId")), M.Named("EvoIds")])))
+    # unions that lose a case down to a single type ([T, U] -> T, also as vector element) and scalars that become unions
+    ust, tust = (), ()
+    ru = rng.fork("evounion")
+    if ru.chance(0.6):
+        def u2():
+            a, b = ru.sample(["int32", "string", "float64", "bool"], 2)
+            return M.Union(((a, M.Prim(a)), (b, M.Prim(b))))
+        for d in base.defs():
+            if isinstance(d, M.Protocol):
+                d.steps.append(("evo20", u2(), True))
+                d.steps.append(("evo21", u2(), False))
+                d.steps.append(("evo22", M.Vec(u2()), False))
+                d.steps.append(("evo23", M.Prim(ru.choice(["int32", "string", "float64"])), True))
+                d.steps.append(("evo24", M.Prim(ru.choice(["int32", "string", "bool"])), False))
+        for r in recs:
+            if ru.chance(0.4):
+                r.fields.append(("evounion%d" % ru.randint(1, 99), u2() if ru.chance(0.6) else M.Vec(u2())))
+        ust, tust = ("evo20", "evo21", "evo22"), ("evo23", "evo24")
     must = ()
     if len(recs) >= 2 and rng.chance(0.6):
         # one generic record instantiated with two different records that the edits below may change: the
@@ -260,7 +301,7 @@ def make_chain(rng):
     k = rng.fork("chainshape")
     newest = E.with_versions(base, rng.fork("ver"), k.choice([1, 2, 2, 3]), partial=True, must_edit=must,
                              order=k.choice(["oldest_first", "oldest_first", "newest_first", "shuffled"]), p_new_protocol=k.choice([0.0, 0.4]),
-                             widen_steps=("evo3", "evo4", "evo6", "evo7", "evo10"), widen_aliases=wal)
+                             widen_steps=("evo3", "evo4", "evo6", "evo7", "evo10"), widen_aliases=wal, union_steps=ust, to_union_steps=tust)
     # where the previous versions come from: directories next to the package, or commits of one git repository named by URL
     newest.versions_from_git = k.fork("git").chance(0.3)
     return newest
@@ -313,6 +354,7 @@ def run_modes(model, cm, old_models, proto, rng, stats, viols, ctx, only=None):
             viols.append(({"class": "crashed_on_cross_version_stream", "mode": mode}, doc(model, proto, ctx, mode, label, vals, res.get("stderr", "")[-300:])))
             continue
         # reference conversion
+        del LOSSY[:]
         try:
             if mode == "old_to_new":
                 want = convert_protocol(old_env, old_proto, ns, env_new, proto, ns, vals)
@@ -335,6 +377,10 @@ def run_modes(model, cm, old_models, proto, rng, stats, viols, ctx, only=None):
         except Unconvertible as e:
             stats["reference_says_runtime_error_allowed"] = stats.get("reference_says_runtime_error_allowed", 0) + 1
             continue       # the documentation allows a runtime error here; a value is not judged either
+        if LOSSY:
+            stats["reference_says_zero_value_or_runtime_error"] = stats.get("reference_says_zero_value_or_runtime_error", 0) + 1
+            if not res["ok"]:
+                continue       # the runtime error the documentation allows for a value of a removed union case
         if not res["ok"]:
             viols.append(({"class": "error_on_convertible_stream", "mode": mode}, doc(model, proto, ctx, mode, label, vals, "%s: %s" % (res["phase"], res.get("what")))))
             continue
@@ -391,6 +437,8 @@ def model_task(task, ybin, root):
         stats["chains"] = 1
         stats["versions"] = len(old_models)
         edits = [e for l in getattr(newest, "edit_log", []) for e in l]
+        if any(e.startswith(("narrow_union", "widen_to_union")) for e in edits):
+            stats["chains_with_a_union_narrowed_to_or_widened_from_a_single_type"] = 1
         if getattr(newest, "versions_from_git", False):
             stats["chains_whose_versions_are_commits_of_one_git_repository"] = 1
         if any(e.startswith("widen_alias") for e in edits):
@@ -438,7 +486,7 @@ def main():
                stubbed="C++ nd-array header and date/date.h; harness main emitted from the generated protocols.h",
                assumptions=["where the reference conversion says a runtime error is allowed (overflow, inexact narrowing, removed union case) neither an error nor a value is judged",
                             "conversions the documentation leaves open (number <-> string, float -> int rounding) are never generated"],
-               replay_fn=replay_doc, quick_budget=160, fault_keys=("old_to_new", "new_to_old", "old_new_old", "reference_says_runtime_error_allowed", "reference_says_numeric_overflow", "chains_with_a_named_type_whose_definition_widened", "chains_whose_versions_are_commits_of_one_git_repository"))
+               replay_fn=replay_doc, quick_budget=160, fault_keys=("old_to_new", "new_to_old", "old_new_old", "reference_says_runtime_error_allowed", "reference_says_numeric_overflow", "chains_with_a_named_type_whose_definition_widened", "chains_whose_versions_are_commits_of_one_git_repository", "chains_with_a_union_narrowed_to_or_widened_from_a_single_type", "reference_says_zero_value_or_runtime_error"))
 
 
 if __name__ == "__main__":
